@@ -1,4 +1,6 @@
 import Qentem.Model.Tmpl.Render
+import Qentem.Model.Tmpl.WF
+import Qentem.Model.Tmpl.Spec
 import Qentem.Driver.Expr
 import Qentem.Driver.Proto
 namespace Qentem.Driver.Tmpl
@@ -9,6 +11,7 @@ Driver of the template model (C01/C02/C17).
 
   tplrender <w> <doc> <units>   parse + render at `R := Float`  → `R <units>` | `F<fault>`
   tpltags <w> <units>           parse only → a dump of the tag tree | `F<fault>`
+  tplwf <w> <units>             parse only → `W 1` / `W 0`: `wf` (Model/Tmpl/WF.lean) of the tag tree
 
 `<w>` (character width) is ignored by the model.  `<doc>`: comma-separated prefix code
   u | z | t | f | n<dec> | i<signed dec> | s<u.u.u> (s alone = empty) | a<count> doc… |
@@ -94,6 +97,106 @@ partial def showCase : IfCase Float → String
 partial def showTags (l : List (Tag Float)) : String := ";".intercalate (l.map showTag)
 end
 
+/-! ### C02: the reference interpreter on an encoded template tree
+
+Token code (comma separated, prefix order; `<u>` = dotted code units, may be empty):
+  x<u> text | v<u> var | r<u> raw | m<u> math | s<u>:<n> svar + n argument nodes |
+  q<u>:<t>:<f> inline if (case text; t, f = node counts of the true / false part or `-`) + nodes |
+  i<nb> if chain + nb × (c<u> | e) b<count> nodes… | l<set u>:<value u>:<count> loop + body nodes -/
+
+def dots (s : String) : Option (List Nat) :=
+  if s.isEmpty then some [] else (s.splitOn ".").mapM (fun (t : String) => t.toNat?)
+
+mutual
+partial def decNodes (n : Nat) (toks : List String) : Option (List Tpl × List String) :=
+  if n = 0 then some ([], toks) else
+  match decNode toks with
+  | some (t, r) => (decNodes (n - 1) r).map (fun (ts, r') => (t :: ts, r'))
+  | none => none
+
+partial def decNode : List String → Option (Tpl × List String)
+  | [] => none
+  | tok :: rest =>
+    let body := (tok.drop 1).toString
+    match tok.toList.head? with
+    | some 'x' => (dots body).map (fun u => (.text u, rest))
+    | some 'v' => (dots body).map (fun u => (.var u, rest))
+    | some 'r' => (dots body).map (fun u => (.raw u, rest))
+    | some 'm' => (dots body).map (fun u => (.math u, rest))
+    | some 's' =>
+      match body.splitOn ":" with
+      | [p, n] =>
+        match dots p, n.toNat? with
+        | some p, some n => (decNodes n rest).map (fun (args, r) => (.svar p args, r))
+        | _, _ => none
+      | _ => none
+    | some 'q' =>
+      match body.splitOn ":" with
+      | [c, t, f] =>
+        match dots c with
+        | none => none
+        | some c =>
+          let part (cnt : String) (r : List String) : Option (Option (List Tpl) × List String) :=
+            if cnt == "-" then some (none, r) else
+            match cnt.toNat? with
+            | some k => (decNodes k r).map (fun (ts, r') => (some ts, r'))
+            | none => none
+          match part t rest with
+          | some (tp, r1) =>
+            match part f r1 with
+            | some (fp, r2) => some (.iif c tp fp, r2)
+            | none => none
+          | none => none
+      | _ => none
+    | some 'i' =>
+      match body.toNat? with
+      | some nb => (decBranches nb rest).map (fun (bs, r) => (.ifc bs, r))
+      | none => none
+    | some 'l' =>
+      match body.splitOn ":" with
+      | [st, v, n] =>
+        match dots st, dots v, n.toNat? with
+        | some st, some v, some n => (decNodes n rest).map (fun (b, r) => (.loop st v b, r))
+        | _, _, _ => none
+      | _ => none
+    | _ => none
+
+partial def decBranches (n : Nat) (toks : List String) :
+    Option (List (Option (List Nat) × List Tpl) × List String) :=
+  if n = 0 then some ([], toks) else
+  match toks with
+  | ctok :: btok :: rest =>
+    let cs : Option (Option (List Nat)) :=
+      if ctok == "e" then some none
+      else if ctok.startsWith "c" then (dots (ctok.drop 1).toString).map some else none
+    match cs, (if btok.startsWith "b" then (btok.drop 1).toString.toNat? else none) with
+    | some c, some k =>
+      match decNodes k rest with
+      | some (body, r) => (decBranches (n - 1) r).map (fun (bs, r') => ((c, body) :: bs, r'))
+      | none => none
+    | _, _ => none
+  | _ => none
+end
+
+def specCtx (root : Doc) : SpecCtx Float where
+  root := root
+  readNum := Qentem.Driver.Expr.readNumFloat
+  realOfBits := fun b => Float.ofBits b.toUInt64
+  realBits := fun r => r.toBits.toNat
+  fmtReal := fun _ => [63]
+
+mutual
+partial def tagTextArith : Tag Float → Bool
+  | .math ex _ _ => (climb ex).textArith
+  | .svar sub _ _ _ => tagsTextArith sub
+  | .iif cs sub _ => (climb cs).textArith || tagsTextArith sub
+  | .loop sub _ => tagsTextArith sub
+  | .ifT cases _ _ => cases.any (fun c => match c with
+      | .mk cs sub _ _ => (!cs.isEmpty && (climb cs).textArith) || tagsTextArith sub)
+  | _ => false
+partial def tagsTextArith (l : List (Tag Float)) : Bool := l.any tagTextArith
+end
+
 def handle (op : String) : List String → String
   | [_w, ds, us] =>
     if op == "tplrender" then
@@ -106,6 +209,24 @@ def handle (op : String) : List String → String
           | .error e => showFault e
           | .ok out => "R " ++ showNats out
       | _, _ => "bad-op"
+    else if op == "tplspec" then
+      -- `tplspec <w> <doc> <tpl tokens>` → `P <printed units> E <documented expansion>`
+      match parseDoc (ds.splitOn ",") with
+      | some (root, []) =>
+        let toks := us.splitOn ","
+        let rec decAll (fuel : Nat) (r : List String) (acc : List Tpl) : Option (List Tpl) :=
+          match fuel, r with
+          | _, [] => some acc.reverse
+          | 0, _ => none
+          | f + 1, _ => match decNode r with
+            | some (t, r') => decAll f r' (t :: acc)
+            | none => none
+        match decAll (toks.length + 1) toks [] with
+        | some tpl =>
+          let text := printList tpl
+          "P " ++ showNats text ++ " E " ++ showNats (expand (specCtx root) tpl (4 * text.length + 100000))
+        | none => "bad-op"
+      | _ => "bad-op"
     else "bad-op"
   | [_w, us] =>
     if op == "tpltags" then
@@ -114,6 +235,23 @@ def handle (op : String) : List String → String
         match parse scanCfg u with
         | .error e => showFault e
         | .ok tags => "T " ++ showTags tags
+      | none => "bad-op"
+    else if op == "tplta" then
+      -- does any expression of the tag tree put a text operand under an arithmetic operator
+      -- (outside the modelled domain of C04, see `Tree.textArith`)?
+      match parseNats us with
+      | some u =>
+        match parse scanCfg u with
+        | .error e => showFault e
+        | .ok tags => "A " ++ showBool (tagsTextArith tags)
+      | none => "bad-op"
+    else if op == "tplwf" then
+      -- the decidable well-formedness predicate of `Model/Tmpl/WF.lean` on what `parse` returns
+      match parseNats us with
+      | some u =>
+        match parse scanCfg u with
+        | .error e => showFault e
+        | .ok tags => "W " ++ showBool (wf u.length tags)
       | none => "bad-op"
     else "bad-op"
   | _ => "bad-op"
